@@ -413,6 +413,63 @@ impl World {
         Ok(Some(id))
     }
 
+    /// The mutator reaches a safepoint outside any MMTk call: if a collection has been requested
+    /// (by an allocation that polled but was not allowed to block) it runs now; the harness thread
+    /// waits for it the way `block_for_gc` does, then verifies the heap.
+    pub fn safepoint(&mut self) -> Result<(), Fail> {
+        let pending = |w: &World| with_state(|s| s.gc_active) || mmtk::util::verif::c03::gc_requested(w.mmtk);
+        if pending(self) {
+            let t0 = std::time::Instant::now();
+            BLOCKED.store(true, std::sync::atomic::Ordering::SeqCst);
+            while pending(self) {
+                std::thread::sleep(std::time::Duration::from_micros(50));
+                if t0.elapsed().as_secs() > 60 {
+                    eprintln!("World::safepoint waited 60 s for a requested collection");
+                    std::process::exit(3);
+                }
+            }
+            BLOCKED.store(false, std::sync::atomic::Ordering::SeqCst);
+        }
+        self.after_possible_gc()
+    }
+
+    /// One large-object allocation request of `size` bytes with `at_safepoint = false` (and no
+    /// over-commit, no OOM upcall): refused with null when it would need a collection, otherwise
+    /// granted (then published as garbage).  A collection it requested without blocking runs at
+    /// the safepoint that follows.
+    pub fn nonsafepoint_request(&mut self, m: usize, size: usize) -> Result<bool, Fail> {
+        let opts = AllocationOptions { allow_overcommit: false, at_safepoint: false, allow_oom_call: false };
+        let a = self.alloc_raw(m, size, 8, 0, Sem::Los, Some(opts))?;
+        if !a.is_zero() {
+            let id = NEXT_ID.fetch_add(1, std::sync::atomic::Ordering::SeqCst);
+            let o = init_object(a, size, 0, 0, 8, id);
+            mmtk::memory_manager::post_alloc(self.mutator(m), o, size, Sem::Los.to_mmtk());
+            self.shadow.recent.insert(a.as_usize(), (a.as_usize() + size, id));
+        }
+        self.safepoint()?;
+        Ok(!a.is_zero())
+    }
+
+    /// Fill most of the heap with one rooted large object, then make `n` large allocation
+    /// requests that cannot be satisfied without a collection and are NOT at a safepoint (they
+    /// must be refused with null, leaving the page accounting as it was), then drop the filler.
+    pub fn refused_nonsafepoint_allocs(&mut self, m: usize, n: usize) -> Result<(), Fail> {
+        self.stats.ops += 1;
+        if !self.collects {
+            return Ok(());
+        }
+        let tmp = MAX_ROOTS - 1;
+        let fill = (self.cfg.heap_bytes / 16 * 9) & !4095;
+        if self.alloc_obj(m, tmp, fill, 0, 8, Sem::Los, false)?.is_none() {
+            return Ok(());
+        }
+        for _ in 0..n {
+            self.nonsafepoint_request(m, (self.cfg.heap_bytes / 2) & !4095)?;
+        }
+        self.set_root(m, tmp, None);
+        Ok(())
+    }
+
     /// Allocate `size` bytes with an explicit alignment and offset, publish the memory as a
     /// well-formed (immediately unreachable) object and record its range as handed out since the
     /// last collection, so that later allocations are checked against it (C02 with the alignment
